@@ -31,8 +31,8 @@ Proof. intros K V eqv f max H g Hg h k. exact (memo_transparent_immutable eqv f 
 
 (* Main theorem.  c12_guard h o (computable): in no step of h ++ [o], nor in the cold run of o, did a cache
    hit return an entry stored under an equal-but-not-identical key (an ==-equal annotation with another
-   member order; an ==-equal duration object of another class), and no object owned by the strload cache was
-   mutated by the caller.  Then the outcome of o after h is its cold outcome. *)
+   member order; an ==-equal duration object of another class).  (The second ghost flag, a caller mutating an
+   object owned by the strload cache, can no longer be raised: no result carries such an object.)  Then the outcome of o after h is its cold outcome. *)
 Theorem C12_history_independent :
   forall (W : world) (h : list op) (o : op),
     c12_guard W h o = true -> warm W h o = cold W (run_hist W init h) o.
@@ -63,14 +63,15 @@ Qed.
 
 (* ---- outside the guard the full statement fails; each witness is replayed on the implementation *)
 
-(* finding 9: unmarshal(list, '[1,2]') returns the object owned by the strload cache; after the caller
-   appends to it, both the bare list and a list[int] built from the same text carry the extra element *)
-Theorem C12_refuted_strload_alias :
-  exists W h o o',
-    c12_guard W h o = false /\
-    warm W h o <> cold W (run_hist W init h) o /\
-    warm W h o' <> cold W (run_hist W init h) o'.
-Proof. exists W0, h_alias, o_alias, o_alias_copy. vm_compute. repeat split; intro H; discriminate H. Qed.
+(* design observation 9 is repaired (f57eb40: strload hands out a deep copy of the memoised value):
+   unmarshal(list, '[1,2]'), append to the result, unmarshal again -- bare list and list[int] -- is inside
+   the guard; both get the pristine [1, 2] *)
+Example C12_strload_result_mutation_ok :
+  c12_guard W0 h_alias o_alias = true /\ c12_guard W0 h_alias o_alias_copy = true /\
+  warm W0 h_alias o_alias = OVal (Ok (VL PFresh [VA 3%N; VA 4%N])) /\
+  warm W0 h_alias o_alias_copy = OVal (Ok (VL PFresh [VA 3%N; VA 4%N])) /\
+  cold W0 (run_hist W0 init h_alias) o_alias = OVal (Ok (VL PFresh [VA 3%N; VA 4%N])).
+Proof. vm_compute. repeat split. Qed.
 
 (* design observation 10 is repaired (34d5e39: only the duration writer is memoised): the equal instant
    17:00+05:00 after 12:00+00:00 is inside the guard and gets its own text *)
@@ -104,7 +105,6 @@ Print Assumptions C12_memo_transparent.
 Print Assumptions C12_memo_transparent_immutable.
 Print Assumptions C12_history_independent.
 Print Assumptions C12_inputs_untouched.
-Print Assumptions C12_refuted_strload_alias.
 Print Assumptions C12_refuted_union_order.
 Print Assumptions C12_refuted_predicate_spelling.
 Print Assumptions C12_full_refuted.
